@@ -59,7 +59,9 @@ def sort_protocol(ctx, L):
     m = ctx.py.mod('prophyc.model')
     f = m.func('topological_sort')
     s = ws(unparse(f.node))
-    L.check(inn("known = set((x + y for x in 'uir' for y in ['8', '16', '32', '64']))", s), 'C15.sort-protocol', 'known-seed', f.site(),
+    seeds = [n for n in f.walk() if isinstance(n, ast.Assign) and len(n.targets) == 1 and unparse(n.targets[0]) == 'known']
+    okc, seedv = try_const(seeds[0].value) if len(seeds) == 1 else (False, None)
+    L.check(okc and isinstance(seedv, set) and seedv == set(a + b for a in 'uir' for b in ('8', '16', '32', '64')), 'C15.sort-protocol', 'known-seed', f.site(),
             'initially only the builtin types are known: anything else a node depends on must first be placed in front of it (a name '
             'delivered by an include can be shadowed by a local definition that still has to be ordered)', '')
     muts = []
@@ -108,10 +110,19 @@ def dependencies(ctx, L):
     m = ctx.py.mod('prophyc.model')
     c = m.func('Constant.dependencies')
     s = ws(unparse(c.node))
-    red = re.search(r"six\.reduce\(sub_, '([^']*)', self\.value\)", s)
-    if not red:
+    # the separators: the one string of punctuation the value is split on (normal form: `for y in '<separators>': acc = acc.replace(y, ' ')`)
+    alph = [n for n in c.walk() if isinstance(n, ast.Constant) and isinstance(n.value, str) and len(n.value) >= 3
+            and not any(ch.isalnum() or ch.isspace() for ch in n.value)]
+    if len(alph) != 1:
         raise AnalysisError('Constant.dependencies: separator alphabet not found')
-    seps = set(red.group(1))
+    red = re.match(r'.*', repr(alph[0].value))
+    seps = set(alph[0].value)
+    repl = [n for n in c.walk() if isinstance(n, ast.Call) and isinstance(n.func, ast.Attribute) and n.func.attr == 'replace' and len(n.args) == 2
+            and isinstance(n.args[1], ast.Constant) and n.args[1].value == ' ']
+    L.check(len(repl) == 1 and any(isinstance(lp, ast.For) and lp.iter is alph[0] and any(x is repl[0] for x in ast.walk(lp)) and
+                                   isinstance(lp.target, ast.Name) and unparse(repl[0].args[0]) == lp.target.id for lp in c.walk()),
+            'C15b.separator-alphabet', 'Constant.dependencies|replaced', c.site(), 'every separator is replaced by a blank before the value is split',
+            ws(unparse(c.node)))
     calc = ctx.py.mod('prophyc.calc')
     ok, lits = try_const(calc.assign_value('literals', 'Calc'))
     ops = set(''.join(lits)) | set('<>')        # LSHIFT / RSHIFT tokens
@@ -119,8 +130,11 @@ def dependencies(ctx, L):
             'Constant.dependencies splits the expression on `%s` only; calc also has the operators `%s`: in `C = A*B` the token `A*B` is '
             'one unknown symbol, C is not ordered after A and B and the generated Python module fails with NameError'
             % (''.join(sorted(seps)), ''.join(sorted(ops - seps))), red.group(0))
-    body = [b for b in c.node.body if not isinstance(b, ast.FunctionDef)]
-    L.check(len(body) == 1 and isinstance(body[0], ast.For) and ws(unparse(body[0].body)) == 'if not symbol.isdigit(): yield symbol',
+    body = [b for b in c.node.body if not isinstance(b, ast.FunctionDef)][-1:]
+    L.check(len(body) == 1 and isinstance(body[0], ast.For) and isinstance(body[0].target, ast.Name) and
+            ws(unparse(body[0].body)) == 'if not {0}.isdigit(): yield {0}'.format(body[0].target.id) and ws(unparse(body[0].iter)).endswith('.split()')
+            and not any(isinstance(x, (ast.Return, ast.Yield, ast.YieldFrom)) for b in c.node.body[:-1] for x in ast.walk(b)
+                        if not isinstance(b, ast.FunctionDef)),
             'C15b.dependency-complete', 'Constant.dependencies|every-symbol', c.site(),
             'every non-numeric symbol of the value must be yielded - unconditionally, also for a bare alias `A = B` (no shortcut for '
             'values without operators)', s)
